@@ -19,7 +19,7 @@ namespace Tokio
 
 /-- default of the `fixedF4` flag of mpsc objects (`Mpsc.blockingRecv`): the pinned tree has the
 defect; `obj c tmpsc cap:<k> fixedF4` selects the repaired `blocking_recv` for one object -/
-def fixedF4 : Bool := false
+def fixedF4 : Bool := true
 
 inductive TObj where
   | mpsc (s : TMpsc)
